@@ -20,6 +20,7 @@ mod c10;
 mod c14;
 mod c18;
 mod c19;
+mod c16;
 mod enc;
 mod out;
 mod redisx;
@@ -116,6 +117,7 @@ fn main() {
         "C14" => c14::run(&a),
         "C18" => c18::run(&a),
         "C19" => c19::run(&a),
+        "C16" => c16::run(&a),
         _ => {
             eprintln!("no harness for {}", prop);
             std::process::exit(2);
